@@ -454,7 +454,10 @@ class Fetcher:
 
         for x in self._pending_tasks:
             x.cancel()
-            await x
+            # A task cancelled while waiting (for example in the backoff
+            # after a failed fetch) ends as cancelled
+            with contextlib.suppress(asyncio.CancelledError):
+                await x
 
     def _notify(self, future):
         if future is not None and not future.done():
